@@ -276,6 +276,15 @@ sLUMemInit(fact_t fact, void *work, int_t lwork, int m, int n, int_t annz,
 	    nzlmax /= 2;
 	    if ( nzlumax < annz ) {
 		printf("Not enough memory to perform factorization.\n");
+		if ( Glu->MemModel == SYSTEM ) {
+		    SUPERLU_FREE(xsup);
+		    SUPERLU_FREE(supno);
+		    SUPERLU_FREE(xlsub);
+		    SUPERLU_FREE(xlusup);
+		    SUPERLU_FREE(xusub);
+		}
+		SUPERLU_FREE(Glu->expanders);
+		Glu->expanders = NULL;
 		return (smemory_usage(nzlmax, nzumax, nzlumax, n) + n);
 	    }
 #if ( PRNTlevel >= 1)
@@ -337,8 +346,25 @@ sLUMemInit(fact_t fact, void *work, int_t lwork, int m, int n, int_t annz,
     Glu->nzlumax = nzlumax;
     
     info = sLUWorkInit(m, n, panel_size, iwork, dwork, Glu);
-    if ( info )
+    if ( info ) {
+	if ( Glu->MemModel == SYSTEM ) {
+	    if ( *iwork ) SUPERLU_FREE(*iwork);
+	    if ( fact != SamePattern_SameRowPerm ) {
+		SUPERLU_FREE(lusup);
+		SUPERLU_FREE(ucol);
+		SUPERLU_FREE(lsub);
+		SUPERLU_FREE(usub);
+		SUPERLU_FREE(xsup);
+		SUPERLU_FREE(supno);
+		SUPERLU_FREE(xlsub);
+		SUPERLU_FREE(xlusup);
+		SUPERLU_FREE(xusub);
+	    }
+	}
+	SUPERLU_FREE(Glu->expanders);
+	Glu->expanders = NULL;
 	return ( info + smemory_usage(nzlmax, nzumax, nzlumax, n) + n);
+    }
     
     ++Glu->num_expansions;
     return 0;
